@@ -83,7 +83,7 @@ class Baton:
         if self.abort:
             raise AbortRun()
 
-    def lock_yield(self):
+    def lock_yield(self, owner_ident=None):
         """The running thread waits for a library lock held by a parked
         thread: pass the baton on, round robin."""
         if self.abort:
@@ -95,6 +95,9 @@ class Baton:
             raise RuntimeError('library lock held by a finished thread')
         self.lock_rr = getattr(self, 'lock_rr', 0) + 1
         target = others[self.lock_rr % len(others)]
+        for t_, i_ in getattr(self, 'idents', {}).items():
+            if i_ == owner_ident and t_ in others:
+                target = t_   # the thread that holds the lock
         self.log('lock-wait', tid, target)
         self.current = target
         self.sems[target].release()
@@ -104,6 +107,9 @@ class Baton:
 
     def _worker(self, tid, body):
         self.sems[tid].acquire()
+        if not hasattr(self, 'idents'):
+            self.idents = {}
+        self.idents[tid] = threading.get_ident()
         try:
             if not self.abort:
                 body(tid)
